@@ -191,7 +191,8 @@ _run_mtime = None
 
 
 def open_variant(b, measure=False, real=False):
-    """(verdict, detail): verdict in accept / reject / wrong-exception. the Reader reads from the simulated disk, or
+    """(verdict, detail, cpu seconds, peak): verdict in accept / reject / wrong-exception. The time is the CPU time of
+    this process, not the wall clock: a busy machine must not look like a slow reader (hangs are the watchdog's business). the Reader reads from the simulated disk, or
     (real=True) from a real file, so that the buffered reader's own behaviour on absurd read sizes is the real one."""
     global _real_path
     from flipjump.fjm.fjm_reader import Reader
@@ -205,7 +206,7 @@ def open_variant(b, measure=False, real=False):
         path = _real_path
     else:
         FS.files['/simfs/v.fjm'] = bytes(b)
-    t0 = time.perf_counter()
+    t0 = time.process_time()
     peak = 0
     if measure:
         tracemalloc.start()
@@ -224,7 +225,7 @@ def open_variant(b, measure=False, real=False):
         if measure:
             peak = tracemalloc.get_traced_memory()[1]
             tracemalloc.stop()
-    return verdict, detail, time.perf_counter() - t0, peak
+    return verdict, detail, time.process_time() - t0, peak
 
 
 def build_file(case):
@@ -474,23 +475,23 @@ def run(case):
                  'accepted with a different image')
         if dt > 1.0 + len(b) / 20000.0 and open_variant(b, real=True)[2] > 1.0 + len(b) / 20000.0:
             viol('time', f'tail+{len(tail)}', 'linear in file size', f'{dt:.2f}s for {len(b)} bytes')
-    # ---- 4c. scaling: doubling the file must not quadruple the time (no super-linear reader)
+    # ---- 4c. scaling: a file four times as long must not take sixteen times as long (no super-linear reader). CPU
+    #          time, a wide gap between the two sizes and a threshold between linear (4x) and quadratic (16x; 8.5x measured on the defect this probe found):
+    #          neither a busy machine nor the linear part of the cost can tip it
     if case['seed'] % 6 == 0:
         for fill in (b'\x00', b'\x01'):
             n1 = 96 * 1024
             _, _, t1, _ = open_variant(F + fill * n1, real=True)
-            _, _, t2, _ = open_variant(F + fill * (2 * n1), real=True)
+            _, _, t4, _ = open_variant(F + fill * (4 * n1), real=True)
             evals += 2
             count('scaling-probe')
-            if t2 > 0.6 and t2 > 3.2 * max(t1, 0.02):
-                # a stall of the machine must not look like a super-linear reader: measure twice more, keep the
-                # fastest t(2n) and the slowest t(n)
-                for _ in range(2):
-                    t1 = max(t1, open_variant(F + fill * n1, real=True)[2])
-                    t2 = min(t2, open_variant(F + fill * (2 * n1), real=True)[2])
-            if t2 > 0.6 and t2 > 3.2 * max(t1, 0.02):
-                viol('time-superlinear', f'tail {fill!r}*n', f't(2n) <= 3.2 t(n) (n={n1} bytes took {t1:.2f}s)',
-                     f't(2n) = {t2:.2f}s')
+            if t4 > 0.6 and t4 > 6 * max(t1, 0.02):
+                # measured once more; keep the slower t(n) and the faster t(4n)
+                t1 = max(t1, open_variant(F + fill * n1, real=True)[2])
+                t4 = min(t4, open_variant(F + fill * (4 * n1), real=True)[2])
+            if t4 > 0.6 and t4 > 6 * max(t1, 0.02):
+                viol('time-superlinear', f'tail {fill!r}*n', f't(4n) <= 6 t(n) (n={n1} bytes took {t1:.2f}s of CPU)',
+                     f't(4n) = {t4:.2f}s')
     # ---- 5. run() agrees with the reader on a sample. the variants REPLACE the intact file in place: same path, and
     #         for the same-size ones the same size and modification time (a torn rewrite, a flipped bit on the disk)
     bad_magic = bytes([F[0] ^ 0x40]) + F[1:]
